@@ -113,6 +113,10 @@ func c12Worker(w *W) {
 		c12OverflowWorker(w)
 		return
 	}
+	if w.Spec.Kind == "builtinfile" {
+		asyncBuiltinFile(w, "C12")
+		return
+	}
 	if w.Spec.Kind == "missing" {
 		// a requested name that no configuration defines: Refresh must fail
 		// (other workers of this kind ask for names that are paths INSIDE a configured logger - "other.tags",
@@ -479,6 +483,7 @@ func init() {
 				specs = append(specs, s)
 			}
 			specs = append(specs, d.NewSpec("missing", "missing", 0, 1))
+			specs = append(specs, d.NewSpec("builtinfile", "builtinfile", 90, 16))
 			for i, nm := range []string{"other.tags", "root.appenderRef", "other.type", "other.appenderRef.ref", "Other", "root.", "appender.a"} {
 				ms := d.NewSpec("missing", fmt.Sprintf("missing-%d", i), 0, 1)
 				ms.Args["name"] = nm
